@@ -257,6 +257,10 @@ def rebuild_with_model(box, metafiles, sdirs, dest, drv, case):
     from torrentfile.rebuild import Assembler
     with quiet():
         asm = Assembler(list(metafiles), list(sdirs), dest)
+        if case.get("bystander"):
+            # another assembler constructed afterwards and never run: it must not receive
+            # (or withhold) the counts of the one that does the work
+            case["_bystander"] = Assembler(list(metafiles), list(sdirs), dest + "-bystander")
     raised = None
     raws = {meta.path: open(meta.path, "rb").read() for meta in asm.metafiles}
     index_model(drv, asm, sdirs, case)
@@ -295,6 +299,9 @@ def rebuild_with_model(box, metafiles, sdirs, dest, drv, case):
                                                     filemap_tokens(asm.filemap), fstok),
                     ("match-bytes", dict(case, metafile=os.path.basename(meta.path)),
                      (asm.counter - before, real, realw, exc)))
+    other = case.pop("_bystander", None)
+    if other is not None and other.counter:
+        raised = raised or f"bystander-counted-{other.counter}"
     return asm.counter, raised
 
 
